@@ -3,11 +3,13 @@ use crate::{Ctx, evidence::Evidence};
 pub mod storeops;
 
 pub mod c01;
+pub mod c04;
 pub mod smoke;
 
 pub fn run(property: &str, ctx: &Ctx) -> Option<Evidence> {
     match property {
         "C01" => Some(c01::run(ctx)),
+        "C04" => Some(c04::run(ctx)),
         "SMOKE" => Some(smoke::run(ctx)),
         _ => None,
     }
